@@ -6,7 +6,7 @@ import json
 import random
 import warnings
 
-from harness import core, anngen
+from harness import core, anngen, project
 from harness.project import call, fix
 
 TYPES = ["a", "b", "c", "x", "y", "z", "ax", "ay", "az", "bx", "by", "bz", "cx", "cy", "cz", "i"]
@@ -45,6 +45,8 @@ def fragment_event(pp, tid, A, types, charges, isotopes, rules, max_losses, mono
 
     # via = "ann": ONE annotation object serves every call of the event (parse once, fragment many times)
     obj = None if via == "str" else anngen.build(pp, A)
+    if via == "str":
+        project.maybe_poison(pp, text, tid)
 
     def src():
         return text if via == "str" else obj
@@ -61,6 +63,9 @@ def fragment_event(pp, tid, A, types, charges, isotopes, rules, max_losses, mono
         # a Fragmenter is built to be used many times: what is recorded is its SECOND answer
         fragmenter = pp.Fragmenter(src(), monoisotopic=mono)
         fragmenter.fragment(**kw("mass"))
+        other = dict(kw("fragment"))
+        other["max_losses"] = 1 if max_losses > 1 else 2        # the same question with another loss budget first
+        fragmenter.fragment(**other)
         fobj = fragmenter.fragment(**kw("fragment"))
         rec = []
         for fr in frs:
